@@ -171,17 +171,36 @@ def check_property(pid, tier, seed, write_evidence=True):
         hres = run_standin(pid, P["harness"], tier, seed, thorough=True)
         standins.append(hres["summary"])
     extra = []
-    if P.get("extra"):
-        for fn in P["extra"]:
-            er = fn(pid, tier, seed)
-            extra.append(er)
+    from checklib.bounded import BOUNDED
+
+    for bname in P.get("bounded", []):
+        tb0 = time.time()
+        br = BOUNDED[bname](seed, thorough=(tier == "thorough"))
+        # a bounded check may serve several properties: keep the violations tagged for this one (untagged: all)
+        mine = []
+        for v_ in br["violations"]:
+            msgs = [m for m in v_.get("violations", []) if not m.startswith("[C") or m.startswith(f"[{pid}]")]
+            if msgs:
+                mine.append(dict(v_, violations=msgs, bounded=bname, kind="bounded", seed=seed))
+        extra.append(dict(name=bname, bounded=True, bound=br["bound"], runs=br["cases"], violations=mine, known=br.get("known", {}), seconds=round(time.time() - tb0, 2), samples=br.get("samples", [])[:1]))
+    witnessed = {}
+    if open_findings(pid):
+        from harness.known import WITNESS
+
+        for f in open_findings(pid):
+            w_ = WITNESS.get(f["id"])
+            if w_ is not None:
+                try:
+                    witnessed[f["id"]] = bool(w_())
+                except Exception:  # noqa: BLE001
+                    witnessed[f["id"]] = True
 
     # ---- known findings: print only while they still reproduce
     for f in open_findings(pid):
         hit = bool(kf_hits.get(f["id"]))
         hh = hres and any(f["id"] in k for k in hres.get("known", {}))
         xh = any(f["id"] in er.get("known", {}) for er in extra)
-        if hit or hh or xh:
+        if hit or hh or xh or witnessed.get(f["id"]):
             lines.append(f"KNOWN-FINDING: property={pid} {f['id']}: {f['what']}")
 
     # ---- violations
@@ -218,7 +237,7 @@ def check_property(pid, tier, seed, write_evidence=True):
             exit_code = 1
     if exit_code == 0 and (undecided or errors):
         # undecided is never a violation; the stand-in has run (or there is none)
-        if not P.get("harness") and not P.get("extra"):
+        if not P.get("harness") and not P.get("bounded"):
             exit_code = 2
 
     wall = time.time() - t0
@@ -227,13 +246,19 @@ def check_property(pid, tier, seed, write_evidence=True):
     if n_dec == 0 and not extra and not hres:
         print(f"CHECKER-ERROR property={pid}: zero obligations generated")
         return 3
+    if units and n_dec == 0 and not errors:
+        print(f"CHECKER-ERROR property={pid}: the contract groups {P['groups']} generated no obligation for this property")
+        return 3
     backends = {}
     for x in deciding:
         backends[x["backend"]] = backends.get(x["backend"], 0) + 1
     samples = [dict(obligation=x["name"], function=x["fn"], path=x["path"], verdict=x["verdict"], backend=x["backend"], seconds=x["seconds"]) for x in (bad[:5] + discharged[:8])]
     cov_ok = len([c for c in covers if c["verdict"] == "discharged"])
+    claim = P.get("claim", "proof")
+    level = ("proof" if proof_ok else "other") if claim == "proof" else ("exploration" if claim == "exploration" else "other")
+    bsamples = [dict(bounded_check=er["name"], case=sm) for er in extra for sm in er.get("samples", [])]
     ev = dict(
-        property_id=pid, tier=tier, seed=seed, level="proof" if proof_ok else "other",
+        property_id=pid, tier=tier, seed=seed, level=level,
         coverage=dict(
             obligations=n_dec, discharged=len(discharged),
             checker_cmd=f"./check {pid} --tier {tier}",
@@ -244,10 +269,11 @@ def check_property(pid, tier, seed, write_evidence=True):
             undischarged=[dict(obligation=n, verdict=xs[0]["verdict"], paths=len(xs)) for n, xs in list(refuted.items()) + list(undecided.items())],
             function_errors=[f"{u[1]}: {e}" for u, e in errors],
             vacuity=dict(covers=len(covers), covers_satisfiable_in_scope=cov_ok, note="a cover is the satisfiability (finite scope <= 4 nodes) of a path condition: loop invariant + precondition + path"),
-            bounded_standins=standins, extra_checks=[{k: v for k, v in er.items() if k != "violations"} for er in extra],
-            samples=samples,
-            explanation=("all deciding obligations discharged" if proof_ok else "not every deciding obligation is discharged (see undischarged / function_errors); bounded stand-in results are listed separately and are not proof"),
-            evaluations=max(1, n_dec + sum(s.get("runs", 0) for s in standins)), distinct_nontrivial=max(2, len({x["name"] for x in deciding})),
+            bounded_standins=standins + [dict({k: v for k, v in er.items() if k != "violations"}, violations=len(er["violations"])) for er in extra],
+            samples=samples + bsamples[:3],
+            claim=claim,
+            explanation=P.get("explanation", "") + " " + ("all deciding obligations discharged" if proof_ok else "not every deciding obligation is discharged (see undischarged / function_errors); bounded stand-in results are listed separately and are not proof"),
+            evaluations=max(1, n_dec + sum(s.get("runs", 0) for s in standins) + sum(er["runs"] for er in extra)), distinct_nontrivial=max(2, len({x["name"] for x in deciding})),
             rule="one evaluation = one clause-level proof obligation (path condition => clause) generated from the current source, or one controlled run of the real scheduler in the stand-in; distinct = distinct obligation names",
         ),
         assumptions=P.get("assumptions", []) + props.COMMON_ASSUMPTIONS,
